@@ -233,6 +233,24 @@ def shard(arg):
                 run_case(rep, {"n": 2, "gid": gid, "ops": [list(a)]}, sample=(a == (1, 2)))
                 for b in allops:
                     run_case(rep, {"n": 2, "gid": gid, "ops": [list(a), list(b)]})
+    elif kind == "named":
+        # textbook states in uniform frames against their own graph and against the graph the tables store for their class
+        _, n, seed, part, parts = arg
+        from gen import named, tableinfo
+        from oracle import coupling as _cp
+        tab = lc.orbit_table(n)
+        for i, (label, gid, w, gens, circ) in enumerate(named.named_subjects(n)):
+            if i % parts != part:
+                continue
+            ops = [[g[1], g[2]] for g in gens]
+            targets = {gid}
+            for (m, name) in _cp.CONFIGS:
+                if m == n:
+                    k = tableinfo.class_of_orbit(n, name).get(tab[gid])
+                    if k is not None and tableinfo.parsed(n, name)[k] is not None:
+                        targets.add(tableinfo.parsed(n, name)[k][0])
+            for t in sorted(targets):
+                run_case(rep, {"n": n, "gid": t, "ops": ops}, sample=(i % 80 == 5 and t == gid))
     elif kind == "groups":
         _, n, shard_list, seed, deadline = arg
         N = 1 << (n * (n - 1) // 2)
@@ -273,7 +291,7 @@ def shard(arg):
 def run(ctx):
     q = ctx.quick
     dl = ctx.deadline
-    args = [("n2",)]
+    args = [("n2",)] + [("named", n, ctx.seed, part, {2: 1, 3: 1, 4: 2, 5: 4, 6: 12}[n]) for n in (6, 5, 4, 3, 2) for part in range({2: 1, 3: 1, 4: 2, 5: 4, 6: 12}[n])]
     for n in ((2, 3) if q else (2, 3, 4)):
         for chunk in sweep.enum_shards(n, {2: 1, 3: 4, 4: 64}[n]):
             args.append(("groups", n, chunk, ctx.seed, dl))
